@@ -217,3 +217,84 @@ def signed_enum_taint(m, s, params, data):
         return walk(refsem.view(m, s.name, pdict(s, params), bytearray(data)))
     except Exception:
         return False
+
+
+def constant_virtual_with_failing_requires(m, s, params, data, rng=None):
+    """Observation-key prefixes ('a.b[1].name') of virtual fields that carry a
+    [requires], whose value does not depend on any field or parameter (so the
+    compiler treats them as constants) and whose value fails the [requires].
+    The generated constant view ignores the attribute (known finding)."""
+    import random
+    from vlib.refsem import ArrayView, StructView
+    rng = rng or random.Random(12345)
+    found = []
+
+    def is_constant(sv, f):
+        if refsem.const_value(f.expr) is not None:
+            return True
+        vals = set()
+        for _ in range(5):
+            buf = bytearray(rng.getrandbits(8) for _ in range(max(len(data), 64)))
+            refsem.COMPLETION = refsem.Completion(random.Random(rng.getrandbits(32)))
+            try:
+                pv = {p.name: UNKNOWN for p in sv.s.params}
+                v = StructView(m, sv.s, pv, refsem.ByteStore(buf, 0, len(buf))) if sv.s.kind == "struct" else None
+                if v is None:
+                    return False
+                vals.add(repr(v.eval(f.expr)))
+            except Exception:
+                return False
+            finally:
+                refsem.COMPLETION = None
+        return len(vals) == 1
+
+    def walk(v, prefix, depth):
+        if depth > 4:
+            return
+        for f in v.s.all_named_fields():
+            if f.kind == "virtual":
+                if f.requires is not None and v.has(f) is True:
+                    try:
+                        val = v.eval(f.expr)
+                        if known(val) and v.eval(f.requires, this=val) is not True and is_constant(v, f):
+                            found.append(prefix + f.name)
+                    except Exception:
+                        pass
+                continue
+            if v.has(f) is not True:
+                continue
+            fv = v.field_view(f)
+            if isinstance(fv, StructView) and not fv.store.null:
+                walk(fv, prefix + f.name + ".", depth + 1)
+            elif isinstance(fv, ArrayView):
+                c = fv.count()
+                if known(c):
+                    for i in range(min(c, 6)):
+                        e = fv.element(i)
+                        if isinstance(e, StructView):
+                            walk(e, "%s%s[%d]." % (prefix, f.name, i), depth + 1)
+
+    try:
+        walk(refsem.view(m, s.name, pdict(s, params), bytearray(data)), "", 0)
+    except Exception:
+        return []
+    return found
+
+
+def explained_by_ignored_requires(prefixes, diffs):
+    """True when every difference is `<p>.ok 0->1`, `<p>.val appears`, or an
+    enclosing structure's Ok() 0->1, for some listed prefix p."""
+    if not prefixes or not diffs:
+        return False
+    for key, exp, got in diffs:
+        ok = False
+        for p in prefixes:
+            if key == p + ".ok" and exp == "0" and got == "1":
+                ok = True
+            elif key == p + ".val" and exp is None:
+                ok = True
+            elif exp == "0" and got == "1" and (key == "ok" or (key.endswith(".ok") and p.startswith(key[:-2]))):
+                ok = True
+        if not ok:
+            return False
+    return True
